@@ -8,7 +8,7 @@ inlined, so helper extraction/inlining and splitting/merging of constant writes 
 """
 import re
 from flow import *
-from mir import roots_of, DefUse, Place, Operand
+from mir import data_deps, roots_of, DefUse, Place, Operand
 from rules_err import is_derive
 from rules_par import find_call, iter_identity
 
@@ -172,6 +172,37 @@ class Engine:
                 out.add(r[0])
         return '|'.join(sorted(out))
 
+    def array_source(self, b, L):
+        """operands of the array literal a loop iterates over (`for x in [a, b, c]` / `.iter()` of it), else None"""
+        du = self.du_of(b)
+
+        def ident(c):
+            if c is None:
+                return None
+            if c.path in ('std::ops::Deref::deref', 'std::ops::DerefMut::deref_mut', 'core::slice::iter', 'std::iter::IntoIterator::into_iter', 'core::array::iter'):
+                return 0
+            return None
+        for x in L:
+            t = b.blocks[x].term
+            if t.k == 'call' and t.callee and t.callee.path == 'std::iter::Iterator::next':
+                rs = roots_of(b, t.args[0], du, through_calls=ident)
+                if len(rs) == 1 and rs[0][0] == 'agg' and rs[0][1].rv.j.get('agg') == 'array' and not [q for q in rs[0][-1] if q[1] != '[]']:
+                    return list(rs[0][1].rv.ops)
+        return None
+
+    def live_arms(self, b, t, tags):
+        """targets of a switch on the discriminant of an Option parameter whose tag the caller fixed"""
+        if t.discr.is_const:
+            return None
+        for r in roots_of(b, t.discr, self.du_of(b)):
+            if r[0] == 'discr':
+                pl = r[1].rv.place
+                rr = roots_of(b, pl, self.du_of(b))
+                if len(rr) == 1 and rr[0][0] == 'arg' and not rr[0][-1] and rr[0][1] in tags:
+                    want = {'None': 0, 'Some': 1}[tags[rr[0][1]]]
+                    return set(tg for v, tg in t.targets if v == want) or {t.otherwise}
+        return None
+
     # ---- effects of one block
     def block_effects(self, b, blk, binding, writer_params):
         """list of alternatives, each a tuple of template items; None = not a writer-related block"""
@@ -191,17 +222,26 @@ class Engine:
         cb = self.prog.local_callee_body(c)
         if cb is not None and self.writes(cb):
             nb = {}
+            tags = {}
             for i, a in enumerate(t.args):
                 d = self.describe(b, a, binding)
                 nb[i + 1] = d if isinstance(d, str) else (repr(d[1]) if d else '?')
-            return self.templates(cb, nb)
+                # a literal None / Some(..) argument: the callee's match on it has one live arm
+                rs = roots_of(b, a, self.du_of(b))
+                vs = set(r[1].rv.j.get('variant') if (r[0] == 'agg' and r[1].rv.j.get('adt', '').endswith('option::Option') and not r[-1]) else '?' for r in rs)
+                if len(vs) == 1 and vs <= {'None', 'Some'}:
+                    tags[i + 1] = vs.pop()
+                elif a.is_const and (a.j.get('s') or '').endswith('None'):
+                    tags[i + 1] = 'None'
+            return self.templates(cb, nb, tags)
         if cb is None and c.trait is not None and c.name in ('write', 'write_wrap', 'write_unchanged'):
             return [(('unk', 'unresolved %s' % c.path),)]
         return [()]
 
     # ---- templates of a body
-    def templates(self, b, binding):
-        key = (b.path, tuple(sorted(binding.items())))
+    def templates(self, b, binding, tags=None):
+        tags = tags or {}
+        key = (b.path, tuple(sorted(binding.items())), tuple(sorted(tags.items())))
         if key in self.memo:
             return self.memo[key]
         if b.path in self.stack:
@@ -248,6 +288,16 @@ class Engine:
                             for p in walk(s, L, x, 'iter', onpath | {x}):
                                 iters.append(tuple(e) + tuple(p))
                 star = ('star', frozenset(Tpl.norm(i) for i in iters))
+                starseq = (star,)
+                arr = self.array_source(b, L)
+                if arr is not None and len(set(iters)) == 1:
+                    # a loop over an array literal `for part in [a, b"..", c]`: unrolled, one iteration per element
+                    seq = ()
+                    for opk in arr:
+                        d = self.describe(b, opk, binding)
+                        item = ('c', d[1]) if isinstance(d, tuple) and d[0] == 'c' else ('h', d if d is not None else '?')
+                        seq += tuple(item if (it[0] == 'h' and str(it[1]).startswith('item(')) else it for it in iters[0])
+                    starseq = seq
                 # leaving iteration
                 leaving = []
                 for e in eff(x):
@@ -260,20 +310,24 @@ class Engine:
                 for (p, out) in leaving:
                     if region is not None and out not in region:
                         if want == 'exit':
-                            res.append(((star,) + p, out))
+                            res.append((starseq + p, out))
                         continue
                     if out == header:
                         if want == 'iter':
-                            res.append((star,) + p)
+                            res.append(starseq + p)
                         continue
                     for q in walk(out, region, header, want, onpath | {x}):
                         if want == 'exit':
-                            res.append(((star,) + p + q[0], q[1]))
+                            res.append((starseq + p + q[0], q[1]))
                         else:
-                            res.append((star,) + p + tuple(q))
+                            res.append(starseq + p + tuple(q))
                 return res
             for e in eff(x):
                 succs = cfg.succ[x]
+                if t.k == 'switch' and tags:
+                    live = self.live_arms(b, t, tags)
+                    if live is not None:
+                        succs = [s_ for s_ in succs if s_ in live]
                 if not succs and want == 'ret' and t.k == 'call' and t.target is None:
                     continue   # diverging call (panic)
                 for s in succs:
@@ -364,9 +418,20 @@ def run(prog, R):
         got = [canon(Tpl.show(t)) for t in eng.templates(b, binding)]
         w = sorted(canon(x) for x in want)
         # name normalisation: the iterator variants name their sequence source by parameter name
-        ok = sorted(normalise_names(g) for g in got) == sorted(normalise_names(x) for x in w)
+        ng = sorted(normalise_names(g) for g in got)
+        nw = sorted(normalise_names(x) for x in w)
+        ok = ng == nw
+        # a verdict needs a template in the vocabulary of the format definition: holes the definition does not
+        # know (an iteration idiom the engine cannot name, an unresolved write) mean "not judged", not "wrong"
+        vocab = set(re.findall(r'\{([^{}]*)\}', ' '.join(nw)))
+        holes = set(re.findall(r'\{([^{}]*)\}', ' '.join(ng)))
+        foreign = sorted(h for h in holes if h not in vocab) + (['<?>'] if any('<?' in g for g in ng) else [])
+        if any('<?std::io::Write::' in g for g in ng):
+            foreign = []      # a Write method other than write_all (write, write_vectored: partial writes): recognised, and wrong
         rid = 'TPL-2' if key == 'fastq::Record::write' else 'TPL-1'
-        R.add(rid, b, 'template', ok, site(b, b.span['lo']), 'writes  %s   expected  %s' % ('  ||  '.join(got), '  ||  '.join(w)))
+        R.add(rid, b, 'template', ok, site(b, b.span['lo']), 'writes  %s   expected  %s%s' % ('  ||  '.join(got), '  ||  '.join(w),
+              ('   (not judged: the written values %s are outside the vocabulary of the format template)' % foreign) if (foreign and not ok) else ''),
+              undecided=(not ok) and bool(foreign))
     R.floor('TPL-1', 15)
     # ---- TPL-3
     tpl3(prog, R)
@@ -378,53 +443,67 @@ def run(prog, R):
 
 def normalise_names(s):
     s = s.replace('part(', '(')
+    # a piece of X, however it was cut (chunks(w), split_at(..) in a loop): the template only fixes the frame around it
+    prev = None
+    while prev != s:
+        prev = s
+        s = re.sub(r'item\(chunks\(([^(){}]*)\)\)', r'\1', s)
     return s
 
 
 def tpl3(prog, R):
-    """wrap parameter reaches slice::chunks / the line-budget subtraction"""
-    targets = {
-        'fasta::write_wrap_seq': ('chunks', 3),
-        'fasta::write_wrap': ('write_wrap_seq', 5),
-        'fasta::write_wrap_seq_iter': ('budget', 3),
-        '<fasta::RefRecord as fasta::Record>::write_wrap': ('write_wrap_seq_iter', 3),
-        '<fasta::OwnedRecord as fasta::Record>::write_wrap': ('write_wrap_seq', 3),
-    }
-    for key, (kind, pidx) in sorted(targets.items()):
-        try:
-            b = prog.get(key)
-        except KeyError:
-            R.anchor_missing('TPL-3', key)
-            continue
+    """the wrap width given to an entry point is the width the chunking / line-budget code uses, followed through
+    private helpers: a callee parameter called `wrap` receives the caller's width, `chunks(_, w)` / `w - fill` /
+    `min(w, ..)` feeding split_at use it.  'unknown' (no recognisable use of a width) gives no verdict."""
+    def width(b, pidx, depth=0):
         du = DefUse(b)
-        ok = False
-        detail = ''
-        if kind == 'chunks':
-            for _, t in b.calls():
-                if t.callee and t.callee.name == 'chunks':
-                    rs = roots_of(b, t.args[1], du)
-                    ok = len(rs) == 1 and rs[0][0] == 'arg' and rs[0][1] == pidx and not rs[0][-1]
-                    detail = 'chunks(_, %s)' % [(r[0], r[1] if r[0] == 'arg' else '') for r in rs]
-        elif kind == 'budget':
-            # remaining = wrap - n_line ; compared with the chunk length and used by split_at
-            for blk in b.blocks:
-                for s in blk.stmts:
-                    if s.k == 'assign' and s.rv.k == 'bin' and s.rv.j['op'] in ('Sub', 'SubUnchecked'):
-                        rs = roots_of(b, s.rv.ops[0], du)
-                        if len(rs) == 1 and rs[0][0] == 'arg' and rs[0][1] == pidx:
-                            # the result must feed split_at
-                            for (k, t, i, via) in forward_sinks(b, s.place.local):
-                                if k == 'call' and t.callee and t.callee.name == 'split_at':
-                                    ok = True
-                            detail = 'remaining = wrap - n_line feeds split_at: %s' % ok
-        else:
-            for _, t in b.calls():
-                cb = prog.local_callee_body(t.callee)
-                if cb is not None and cb.key.endswith('::' + kind):
-                    rs = roots_of(b, t.args[-1], du)
-                    ok = len(rs) == 1 and rs[0][0] == 'arg' and rs[0][1] == pidx and not rs[0][-1]
-                    detail = '%s(.., wrap <- %s)' % (kind, [(r[0], r[1] if r[0] == 'arg' else '') for r in rs])
-        R.add('TPL-3', b, 'wrap-reaches-wrapper', ok, site(b, b.span['lo']), detail or 'wrapping callee not found')
+        res = []
+        for _, t in b.calls():
+            c = t.callee
+            if c is None:
+                continue
+            cb = prog.local_callee_body(c)
+            if cb is not None:
+                wj = [l for l, nm in cb.names.items() if nm == 'wrap' and 1 <= l <= cb.arg_count]
+                if wj and wj[0] - 1 < len(t.args) and depth < 4:
+                    rs = roots_of(b, t.args[wj[0] - 1], du)
+                    if rs and all(r[0] == 'arg' and r[1] == pidx and not r[-1] for r in rs):
+                        res.append(width(cb, wj[0], depth + 1))
+                    elif any(r[0] == 'arg' and r[1] == pidx for r in rs) or any(d[0] == 'arg' and d[1] == pidx for d in data_deps(b, t.args[wj[0] - 1], du)):
+                        res.append(('unknown', ''))    # the width is passed on in another form (e.g. wrapped in Some): not followed
+                    else:
+                        res.append(('bad', '%s(.., wrap <- %s)' % (cb.key.rsplit('::', 1)[-1], [(r[0], r[1] if r[0] == 'arg' else '') for r in rs])))
+                continue
+            if c.name in ('chunks', 'rchunks', 'chunks_exact') and len(t.args) == 2:
+                rs = roots_of(b, t.args[1], du)
+                good = bool(rs) and all(r[0] == 'arg' and r[1] == pidx and not r[-1] for r in rs)
+                res.append(('ok' if good else 'bad', '%s(_, %s)' % (c.name, [(r[0], r[1] if r[0] == 'arg' else '') for r in rs])))
+            if c.name in ('min',) and len(t.args) == 2:
+                if any(all(r[0] == 'arg' and r[1] == pidx and not r[-1] for r in roots_of(b, a, du)) and roots_of(b, a, du) for a in t.args):
+                    if any(k == 'call' and tt.callee and tt.callee.name == 'split_at' for (k, tt, i2, via) in forward_sinks(b, t.dest.local)):
+                        res.append(('ok', 'min(wrap, ..) feeds split_at'))
+        for blk in b.blocks:
+            for st in blk.stmts:
+                if st.k == 'assign' and st.rv.k == 'bin' and st.rv.j['op'] in ('Sub', 'SubUnchecked'):
+                    rs = roots_of(b, st.rv.ops[0], du)
+                    if len(rs) == 1 and rs[0][0] == 'arg' and rs[0][1] == pidx and st.place.is_local():
+                        if any(k == 'call' and tt.callee and tt.callee.name == 'split_at' for (k, tt, i2, via) in forward_sinks(b, st.place.local)):
+                            res.append(('ok', 'remaining = wrap - fill feeds split_at'))
+        if any(r[0] == 'bad' for r in res):
+            return ('bad', '; '.join(r[1] for r in res if r[0] == 'bad'))
+        if any(r[0] == 'ok' for r in res):
+            return ('ok', '; '.join(r[1] for r in res if r[0] == 'ok'))
+        return ('unknown', 'no use of the width recognised')
+    n = 0
+    for b in prog.bodies.values():
+        if not b.file.endswith('fasta.rs') or b.promoted_of is not None or '{closure' in b.key:
+            continue
+        wl = [l for l, nm in b.names.items() if nm == 'wrap' and 1 <= l <= b.arg_count]
+        if not wl:
+            continue
+        v, detail = width(b, wl[0])
+        n += 1
+        R.add('TPL-3', b, 'wrap-reaches-wrapper', v != 'bad', site(b, b.span['lo']), detail, undecided=v == 'unknown')
     R.floor('TPL-3', 5)
 
 
@@ -495,9 +574,33 @@ def tpl4(prog, R):
                                     other = [o for o in r[1].rv.ops if o.const_int() != 10][0]
                                     dd = roots_of(b, other, du, through_calls=identity_through)
                                     guard = any(q[0] == 'call' and q[1].callee.name == 'last' for q in dd)
+                if not guard:
+                    # `match data.last() { Some(b'\n') => {}, _ => write LF }`: a switch on the last byte itself
+                    for a in cs:
+                        tt = b.blocks[a].term
+                        if tt.k == 'switch' and not tt.discr.is_const and 10 in [v for v, _ in tt.targets]:
+                            dd = roots_of(b, tt.discr, du, through_calls=identity_through)
+                            if any(q[0] == 'call' and q[1].callee and q[1].callee.name == 'last' for q in dd):
+                                lf_arm = [tg for v, tg in tt.targets if v == 10][0]
+                                if nl[0][0] not in b.cfg.reach_from(lf_arm, include_start=True):
+                                    guard = True
                 cond_ok = nl_ok and order and guard
             R.add('TPL-4', b, 'extent-and-terminator', start_ok and end_ok and cond_ok, site(b, data[0][1].line),
                   'writes %s then %s"\\n": start at record start %s, end at last line end %s, terminator rule %s' % (desc, '' if fmt == 'fastq' else 'conditionally ', start_ok, end_ok, cond_ok))
+        elif not data and not nl and not others:
+            # the writes happen in private helpers: fall back to the interprocedural template of the function
+            eng = Engine(prog)
+            tps = eng.templates(b, param_names(b))
+            shapes = []
+            for tp in tps:
+                items = list(tp)
+                shapes.append(tuple(('c', bytes(i[1])) if i[0] == 'c' else (i[0],) for i in items))
+            want = [[(('h',), ('c', b'\n'))], [(('h',),), (('h',), ('c', b'\n'))]][0 if fmt == 'fastq' else 1]
+            unk = any(i[0] in ('unk', 'star') for tp in tps for i in tp)
+            okt = sorted(shapes) == sorted(want)
+            R.add('TPL-4', b, 'extent-and-terminator', okt, site(b, b.span['lo']),
+                  'writes through private helpers; template of the function: %s (required: one slice of the buffer, then LF%s); the extent of the slice is not visible here and not judged' % (
+                      ' || '.join(Tpl.show(t) for t in tps), '' if fmt == 'fastq' else ' unless it ends with one'), undecided=okt or unk)
         else:
             R.add('TPL-4', b, 'extent-and-terminator', False, site(b, b.span['lo']),
                   'expected one data write_all, one terminator write_all and no other use of the writer; found %d/%d/%d' % (len(data), len(nl), len(others)))
@@ -562,5 +665,5 @@ def tpl5(prog, R):
             R.add('TPL-5', b, 'description-iff-some', on_param and not bad, site(b, t.line),
                   'the separator/description is written exactly when desc is Some: guarded by the parameter discriminant %s, extra conditions at lines %s' % (on_param, bad))
         if n == 0:
-            R.add('TPL-5', b, 'description-iff-some', False, site(b, b.span['lo']), 'no write of the separating space found')
+            R.undecided('TPL-5', b, 'description-iff-some', site(b, b.span['lo']), 'no write of the separating space in this function (delegated to a helper): judged by the template rule TPL-1 with the literal None / Some of each caller')
     R.floor('TPL-5', 2)
